@@ -133,6 +133,33 @@ theorem C13_never_silently_alters (c : Ctx) (s : Str) (quoted : Bool) (out : Str
         simp only [Bool.false_eq_true, false_and, ↓reduceIte, Bool.not_eq_true, Bool.or_eq_false_iff] at hf
         exact hf.1.2
 
+open Spec.Lexical Model.Lexer in
+/-- **C13_value_roundtrip** — the CIF 1.1 instance of `C02_value_roundtrip`: in CIF 1.1 output mode, for every string of
+    CIF 1.1 characters (printable ASCII, tab, LF), what `write_char` writes is read back by the CIF 1.1 lexer as one value
+    token without any report: its text is the string, or — for a text field — a body that decodes, with line unfolding and
+    prefix removal enabled, to the string; a quoted value never comes back whitespace-delimited. -/
+theorem C13_value_roundtrip (c : Ctx) (s : Str) (q : Bool) (out : Str) (c' : Ctx)
+    (h1 : c.isCif1 = true)
+    (hok : okUnits .cif1 none s = true) (hcol : c.lastColumn ≤ LINE)
+    (h : writeChar c s q true = .ok (out, c'))
+    (w0 : List WsAtom) (ctx : Str) (line col : Nat) (lt : TokType) (pol : Policy) (log : List Report)
+    (hw0 : ∀ a ∈ w0, a.ok .cif1 = true)
+    (hfirst : afterWsOf lt = true ∨ ∀ b rest, w0 ≠ WsAtom.comment b :: rest)
+    (hws : (afterWsOf lt || !w0.isEmpty) = true)
+    (hfitw : linesFit col (renderWs w0) = true)
+    (hcolw : (posAfter line col (renderWs w0)).2 ≤ c.lastColumn)
+    (hctx : followOk .cif1 ctx = true) :
+    ∃ (p : Presentation) (s' : Str) (L C : Nat),
+      nextToken .cif1 ⟨renderWs w0 ++ (out ++ ctx), line, col, lt⟩ pol log
+        = .ok (⟨p.tokType, s', L, C⟩, ⟨ctx, L, C, p.tokType⟩) log
+      ∧ (p ≠ .text → s' = s) ∧ (p = .text → decodeText true true s' = s)
+      ∧ (p = .bare → q = false ∧ s.head? ≠ some 59) := by
+  have hdia : Lemmas.WriterLex.diaOf c = .cif1 := by simp [Lemmas.WriterLex.diaOf, h1]
+  obtain ⟨p, s', L, C, hn, a1, a2, a3⟩ := C02_value_roundtrip c s q out c' (by rw [hdia]; exact hok) hcol h w0 ctx line col lt pol log
+    (by rw [hdia]; exact hw0) hfirst hws hfitw hcolw (by rw [hdia]; exact hctx)
+  rw [hdia] at hn
+  exact ⟨p, s', L, C, hn, a1, a2, a3⟩
+
 /-- FULL: `cif_write` in CIF 1.1 mode on a whole CIF fails only with CIF_DISALLOWED_CHAR / CIF_DISALLOWED_VALUE (loops
     non-empty, data names of 2 to 2048 characters).  PROVED OF IT: the value level (`C13_refusal_codes`). -/
 def C13_refusal_codes_full (writable : WCif → Prop) : Prop :=
